@@ -147,6 +147,26 @@ def check_coverage(ctx, chk):
         detail = f"patches {arg} under {F[:200]} in loops {loops}"
     chk.ob("C16.coverage", "every non-internet subnet not yet known vulnerable gets one of its hosts "
            "patched (loop over all subnets)", ok, detail, fi.module.path)
+    # what is recorded as "this subnet has a vulnerable host": the subnet component of the address
+    # of the host at hand (first pass) / the subnet being patched (second pass) - nothing else
+    adds = [ev for ev in s.events if ev.kind == "mcall" and ev.data["name"] == "add"
+            and ev.data["recv"][0] == "call" and ev.data["recv"][1] == "builtins.set"
+            and len(ev.data["args"]) == 1]
+    desc_a = ("only the subnet of a host known / made vulnerable is recorded as vulnerable (first "
+              "pass: the host's own subnet, second pass: the subnet being patched)")
+    if not adds:
+        chk.undecided("C16.coverage", desc_a, "no `.add(...)` into a local set found in "
+                      "_ensure_host_vulnerability", fi.module.path)
+    else:
+        bad = []
+        for ev in adds:
+            loops = [cn.show(ip.loops[c[1]]["iter"]) for c in ev.pc if c[0] == "inloop"]
+            arg = cn.show(ev.data["args"][0])
+            want_arg = {("G.hosts",): f"{HK}[0]",
+                        ("enumerate(G.subnets)",): "each(enumerate(G.subnets))[0]"}.get(tuple(loops))
+            if want_arg is None or arg != want_arg:
+                bad.append(f"{arg} in loops {loops} at {ev.loc}")
+        chk.ob("C16.coverage", desc_a, not bad, "; ".join(bad), fi.module.path)
     # _update_host_to_vulnerable exits
     fi, ip, s, cn = method_run(ctx, "_update_host_to_vulnerable", no_inline=(
         "_update_host_exploit_vulnerability", "_update_host_privesc_vulnerability"))
